@@ -3,12 +3,13 @@ package main
 import (
 	"bytes"
 	"io"
+	"reflect"
 	"runtime/debug"
 
-	"github.com/klauspost/compress/s2"
 	"encoding/binary"
 	"errors"
 	"fmt"
+	"github.com/klauspost/compress/s2"
 	"math"
 	"os"
 	"sort"
@@ -83,6 +84,7 @@ type coll struct {
 	emitted  []emitted
 	txns     map[string]*txnHandle
 	replayed map[string]int
+	api      int // rotates the access path of reads and writes (apivariants.go)
 }
 
 type storeImpl struct {
@@ -358,6 +360,12 @@ func makeColumn(kind, merge string) (column.Column, bool) {
 	return nil, false
 }
 
+var reflectKinds = map[string]reflect.Kind{
+	"int16": reflect.Int16, "int32": reflect.Int32, "int64": reflect.Int64, "int": reflect.Int,
+	"uint16": reflect.Uint16, "uint32": reflect.Uint32, "uint64": reflect.Uint64, "uint": reflect.Uint,
+	"float32": reflect.Float32, "float64": reflect.Float64, "bool": reflect.Bool, "string": reflect.String,
+}
+
 type number interface {
 	~int | ~int16 | ~int32 | ~int64 | ~uint | ~uint16 | ~uint32 | ~uint64 | ~float32 | ~float64
 }
@@ -490,7 +498,7 @@ func (c *coll) dump() string {
 			var parts []string
 			txn.QueryAt(idx, func(r column.Row) error {
 				for _, n := range names {
-					if v, ok := readTyped(r, n, c.kinds[n]); ok {
+					if v, ok := readVariant(txn, r, n, c.kinds[n], c.apiVariant()); ok {
 						parts = append(parts, n+"="+v)
 					}
 				}
@@ -696,7 +704,7 @@ func (c *coll) runActions(txn *column.Txn, r column.Row, acts []string) (string,
 			if !ok || !ok2 {
 				return "", false
 			}
-			if !writeTyped(r, f[1], kind, f[0] == "merge", val) {
+			if !writeVariant(txn, r, f[1], kind, f[0] == "merge", val, c.apiVariant()) {
 				return "", false
 			}
 		case f[0] == "bool" && len(f) == 3:
@@ -720,7 +728,7 @@ func (c *coll) runActions(txn *column.Txn, r column.Row, acts []string) (string,
 			txn.QueryAt(uint32(off), func(column.Row) error { return nil })
 		case f[0] == "get" && len(f) == 2:
 			if kind, ok := c.kinds[f[1]]; ok {
-				v, has := readTyped(r, f[1], kind)
+				v, has := readVariant(txn, r, f[1], kind, c.apiVariant())
 				if kind == "bool" {
 					if has {
 						outs = append(outs, f[1]+"=1")
@@ -1300,7 +1308,7 @@ func (c *coll) selectLine(txn *column.Txn, rest []string) string {
 					}
 					return nil
 				}
-				if v, has := readTyped(r, action[1], kind); has {
+				if v, has := readVariant(txn, r, action[1], kind, c.apiVariant()); has {
 					out = append(out, fmt.Sprintf("%d:%s", idx, v))
 				} else {
 					out = append(out, fmt.Sprintf("%d:~", idx))
@@ -1413,6 +1421,12 @@ func (s *storeImpl) exec(toks []string) (out string) {
 		col, ok := makeColumn(rest[2], merge)
 		if !ok {
 			return "bad-op"
+		}
+		if k, byKind := reflectKinds[rest[2]]; byKind && merge == "" && !apiPinned && (fnv64(rest[1])+uint64(len(c.kinds)))%2 == 1 {
+			// the other constructor of the same column: ForKind (default options)
+			if alt, err := column.ForKind(k); err == nil {
+				col = alt
+			}
 		}
 		_, existed := c.kinds[rest[1]]
 		if err := c.c.CreateColumn(rest[1], col); err != nil {
